@@ -11,6 +11,7 @@ pub mod c10;
 pub mod c11;
 pub mod c12;
 pub mod c13;
+pub mod c14;
 pub mod proj;
 pub mod c16;
 pub mod c17;
@@ -91,6 +92,7 @@ pub fn generate(prop: &str, tier: &str, g: &mut Gen) {
         "C13" => c13::generate(g, thorough),
         "C10" => c10::generate(g, thorough),
         "C01" => c01::generate(g, thorough),
+        "C14" => c14::generate(g, thorough),
         "C11" => c11::generate(g, thorough),
         _ => {}
     }
